@@ -51,8 +51,7 @@ def pm_match(pm, x, oracle, fold=None):
     if isinstance(pm, Cls):
         if oracle is None:
             raise Inconclusive('shorthand class without oracle')
-        if fold is not None:
-            raise Inconclusive('shorthand class under (?i)')
+        # under (?i) a shorthand class is unchanged: \d \s have no cased members and \w is closed under simple case folding
         t = in_ranges(x, oracle[pm.name])
         return z3.Not(t) if pm.neg else t
     if isinstance(pm, Range):
